@@ -38,7 +38,11 @@
 //   iterators     std::vector<T>::iterator, T* (raw pointers), std::deque<T>::iterator
 //   RanSeqs       vector<pair>::iterator, pair*, vector<pair>::const_iterator; offsets via iterator or raw pointer
 //   element type  int, struct KV {key, payload} compared by key only
-//   comparator    the plain functor, a by-key adaptor, a stateful non-default-constructible wrapper
+//   comparator    the plain functor (2 variants) and comparators WITH STATE (8 variants): a by-key adaptor and a
+//                 non-default-constructible wrapper owning heap state, a capturing lambda, a std::function, a plain
+//                 function pointer.  The state (PoisonState) is scrambled by the destructor, so a comparator
+//                 object used after its lifetime (e.g. through a dangling reference kept by the internal
+//                 lexicographic helpers) gives a sanitizer report under ASan and inverted comparisons without
 // `one` and `all` lines run EVERY variant on every rank; if a variant disagrees with variant 0 its answer is printed
 // as an additional entry for the same rank plus a token "#v=<variant>" (the checker judges every entry).  `exh`
 // lines rotate through the variants (entry k uses variant k mod 10).  The last output line "#VARIANTS ..." gives the
@@ -113,23 +117,49 @@ static inline int key_of(const KV& x) { return x.key; }
 static inline void make_elem(int& e, int x, int) { e = x; }
 static inline void make_elem(KV& e, int x, int tag) { e.key = x; e.payload = tag; }
 
-// compares KV by key only
+// comparator state: alive <=> flag == 1.  The destructor scrambles it (volatile store, so that lifetime dead-store
+// elimination cannot remove it): a comparator object used after its destruction - e.g. through a dangling reference
+// to a dead by-value parameter - is a stack-use-after-scope/return report under ASan, and without ASan it sees the
+// poison (or whatever overwrote the slot) and inverts its answers.  Copies of a dead object stay poisoned.  (Kept
+// inline rather than on the heap: an allocation per comparator copy made the harness a third slower; the
+// std::function variant owns its functor on the heap anyway.)
+struct PoisonState {
+    volatile int flag;
+    PoisonState() : flag(1) {}
+    PoisonState(const PoisonState& o) : flag(o.flag) {}
+    PoisonState& operator=(const PoisonState& o) { flag = o.flag; return *this; }
+    ~PoisonState() { flag = -1; }
+    bool ok() const { return flag == 1; }
+};
+
+// compares KV by key only (owns state)
 template <typename Base>
 struct ByKey {
     Base base;
+    PoisonState st;
     explicit ByKey(Base b) : base(b) {}
-    bool operator()(const KV& a, const KV& b) const { return base(a.key, b.key); }
+    bool operator()(const KV& a, const KV& b) const { return st.ok() ? base(a.key, b.key) : base(b.key, a.key); }
 };
-// stateful comparator object without default constructor (counts its calls through a pointer)
+// stateful comparator object without default constructor (owns state, counts its calls through a pointer)
 inline long g_cmp_calls = 0;
 template <typename Base>
 struct Stateful {
     Base base;
     long* calls;
+    PoisonState st;
     Stateful(Base b, long* c) : base(b), calls(c) {}
     template <typename T>
-    bool operator()(const T& a, const T& b) const { ++*calls; return base(a, b); }
+    bool operator()(const T& a, const T& b) const { ++*calls; return st.ok() ? base(a, b) : base(b, a); }
 };
+// a lambda capturing its state by value
+template <typename Base>
+static auto make_lambda_cmp(Base b) {
+    PoisonState st;
+    return [st, b](int x, int y) { return st.ok() ? b(x, y) : b(y, x); };
+}
+// a plain function (used through a function pointer)
+template <typename Base>
+static bool fn_cmp(int x, int y) { return Base()(x, y); }
 
 struct Answer {
     std::vector<long> offs;
@@ -235,10 +265,10 @@ static Answer run_one(std::vector<std::pair<It, It>> iters, long rank, Comp comp
 static const int NVARIANTS = 10;
 static const char* const VARIANT_NAME[NVARIANTS] = {
     "long/vector-iter/int/plain/iter",        "size_t/vector-iter/int/plain/iter",
-    "int/pointer/int/plain/ptr",              "uint/deque-iter/int/plain/iter",
+    "int/pointer/int/lambda/ptr",             "uint/deque-iter/int/std-function/iter",
     "longlong/vector-iter/KV/bykey/const-iter", "size_t/deque-iter/KV/stateful/iter",
     "int/vector-iter/int/stateful/iter",      "size_t/pointer/KV/bykey/ptr",
-    "longlong/deque-iter/int/plain/const-iter", "uint/pointer/KV/stateful/ptr"};
+    "longlong/deque-iter/int/fnptr/const-iter", "uint/pointer/KV/stateful/ptr"};
 static long g_variant_calls[NVARIANTS];
 
 template <int K, typename Comp>
@@ -246,13 +276,14 @@ static Answer variant_k(Tuple& T, long rank, Comp comp) {
     ByKey<Comp> bk(comp);
     if constexpr (K == 0) return run_one<long, 0, Comp>(iter_pairs(T.vi), rank, comp);
     else if constexpr (K == 1) return run_one<std::size_t, 0, Comp>(iter_pairs(T.vi), rank, comp);
-    else if constexpr (K == 2) return run_one<int, 1, Comp>(ptr_pairs(T.vi), rank, comp);
-    else if constexpr (K == 3) return run_one<unsigned int, 0, Comp>(iter_pairs(T.di), rank, comp);
+    else if constexpr (K == 2) return run_one<int, 1, Comp>(ptr_pairs(T.vi), rank, make_lambda_cmp(comp));
+    else if constexpr (K == 3) return run_one<unsigned int, 0, Comp>(iter_pairs(T.di), rank,
+                                                                 std::function<bool(int, int)>(Stateful<Comp>(comp, &g_cmp_calls)));
     else if constexpr (K == 4) return run_one<long long, 2, Comp>(iter_pairs(T.vk), rank, bk);
     else if constexpr (K == 5) return run_one<std::size_t, 0, Comp>(iter_pairs(T.dk), rank, Stateful<ByKey<Comp>>(bk, &g_cmp_calls));
     else if constexpr (K == 6) return run_one<int, 0, Comp>(iter_pairs(T.vi), rank, Stateful<Comp>(comp, &g_cmp_calls));
     else if constexpr (K == 7) return run_one<unsigned long, 1, Comp>(ptr_pairs(T.vk), rank, bk);
-    else if constexpr (K == 8) return run_one<long long, 2, Comp>(iter_pairs(T.di), rank, comp);
+    else if constexpr (K == 8) return run_one<long long, 2, Comp>(iter_pairs(T.di), rank, &fn_cmp<Comp>);
     else return run_one<unsigned int, 1, Comp>(ptr_pairs(T.vk), rank, Stateful<ByKey<Comp>>(bk, &g_cmp_calls));
 }
 
